@@ -288,6 +288,33 @@ def judge(case, m):
                 formulae.config["EVAL_UNSEEN_CATEGORIES"] = "error"
                 kept.append((kind0, obj0.evaluate_new_data(plain), len(plain)))
                 m.cls("evaluated-from-derived")
+                if kind0 == "group":
+                    # what a derived matrix says about new groups refers to the TRAINING groups, not to its parent's
+                    r0 = kept[-1][1]
+                    m.ev("slices-tile-columns")
+                    if tuple(r0.factors_with_new_levels) != () or r0.design_matrix.shape[1] != dm.group.design_matrix.shape[1]:
+                        m.violation("slices-tile-columns", f"group matrix derived from a derived matrix (parent had new groups: "
+                                    f"{tuple(obj0.factors_with_new_levels)}), evaluated on training rows: factors_with_new_levels="
+                                    f"{tuple(r0.factors_with_new_levels)}, {r0.design_matrix.shape[1]} columns, training has "
+                                    f"{dm.group.design_matrix.shape[1]}", key="derived:new-groups-on-training-rows")
+                    affected = []
+                    for t in dm.group.terms.values():
+                        if col in t.factor.var_names and t.factor.name not in affected:
+                            affected.append(t.factor.name)
+                    if affected:
+                        again = plain.copy()
+                        vals2 = again[col].tolist()
+                        vals2[0] = "UNSEEN-2"
+                        again[col] = pd.Series(vals2, dtype=object if meta[col]["kind"] == "obj" else "str")
+                        formulae.config["EVAL_UNSEEN_CATEGORIES"] = "silent"
+                        r1 = obj0.evaluate_new_data(again)
+                        kept.append((kind0, r1, len(again)))
+                        formulae.config["EVAL_UNSEEN_CATEGORIES"] = "error"
+                        m.ev("slices-tile-columns")
+                        if sorted(r1.factors_with_new_levels) != sorted(affected):
+                            m.violation("slices-tile-columns", f"group matrix derived from a derived matrix, new frame with an unseen level of {col}: "
+                                        f"factors_with_new_levels={tuple(r1.factors_with_new_levels)}, expected {tuple(affected)}",
+                                        key="derived:new-groups-not-reported")
             except Exception as e:
                 m.note("derived-newdata-raised:" + type(e).__name__)
         # the original matrices and every earlier result must still be consistent
